@@ -13,7 +13,7 @@ D7 an unanswered REG1 is abandoned at the 4 s deadline, first thing in housekeep
 D8 every registration frame leaves on the uplink the manager named: driver REG1 on connections[sends.reg1.0], the re-sent REG1 / REG2 on
    the loop's own link i, the immediate REG1 on the link the REG_NGP arrived on, the broadcast on every element of the whole slice.
 """
-from ..ctx import CONN, is_call, is_field, sname
+from ..ctx import CONN, is_call, is_field, sname, some_of
 from ..expr import show, strip_old, walk
 from ..pathcond import PathA, calls_to, field_stores
 from . import C08, C09
@@ -64,14 +64,14 @@ def d1_one_reg1_slot(ctx):
     if d:
         pa = ctx.pa(d)
         free = pa.is_atom(("is", fld("pending_reg2_idx"), "None"))
-        isn = pa.find(lambda a: is_call(a, name_contains="Option::<T>::is_none") and a[2][0] == fld("pending_reg2_idx"))
+        isn = [(x, pa.bdd.NOT(fm)) for (x, fm) in some_of(pa, lambda x: x == fld("pending_reg2_idx"))]
         for (bb, t) in calls_to(d, stable=B1):
             ok = pa.entails(pa.pc_block(bb), free) or (bool(isn) and pa.entails(pa.pc_block(bb), isn[0][1]))
             ctx.chk.ob("D1", "the driver sends REG1 only with the slot free", ok, "PC = %s" % pa.show(pa.pc_block(bb))[:300], key="D1:driver-slot-free", loc=t.get("loc"))
     im = ctx.fn(R + "::reg1_if_ngp_immediate", "D1")
     if im:
         pa = ctx.pa(im)
-        isn = pa.find(lambda a: is_call(a, name_contains="Option::<T>::is_none") and a[2][0] == fld("pending_reg2_idx"))
+        isn = [(x, pa.bdd.NOT(fm)) for (x, fm) in some_of(pa, lambda x: x == fld("pending_reg2_idx"))]
         for (bb, t) in calls_to(im, stable=R + "::build_reg1_for"):
             ok = bool(isn) and pa.entails(pa.pc_block(bb), isn[0][1])
             idx = pa.fa.val_operand(t["args"][1], (bb, len(im.blocks[bb]["stmts"])))
